@@ -17,7 +17,7 @@ import (
 
 func init() {
 	Register(&Scenario{Prop: "C04", Name: "tampered-entries", Run: scenC04, SoftParks: true, Weight: 1,
-		Rule: "honest writer W, receiver R, adversary (listed as a colluding writer in half of the runs); W writes 2-5 entries, R replicates all or some; then 3-8 (thorough 3-16) attempts, each one valid entry of W's log with ONE wire field mutated {payload, clock.time, clock.id, next, refs, v, key, sig, identity.id, identity.publicKey, identity.signatures, identity.type, log id, claimed hash} or an entry of another database written by W, delivered (a) as a head claiming the original hash, (b) as a head claiming the recomputed address, (c) stored under its true address and referenced as predecessor by a valid entry of the colluding writer; by topic announcement, direct channel or manual Sync; oracle at every quiescent step: an injected entry that is invalid (claimed hash != address of its re-encoding, or a signed field / key / signature changed, or foreign log id) is in no honest replica's entry set, total order or head set under either hash, and the order of previously held entries is unchanged; non-trivial = >=3 attempts covering >=2 delivery modes reached a replica holding >=2 valid entries"})
+		Rule: "honest writer W, receiver R, adversary (listed as a colluding writer in half of the runs); W writes 2-5 entries, R replicates all or some; then 3-8 (thorough 3-16) attempts, each one valid entry of W's log with ONE wire field mutated {payload, clock.time, clock.id, next, refs, v, key, sig, identity.id, identity.publicKey, identity.signatures, identity.type, log id, claimed hash} or an entry of another database written by W, delivered (a) as a head claiming the original hash, (b) as a head claiming the recomputed address, (c) stored under its true address and referenced as predecessor (next), or only as skip-list reference (refs), by a valid entry of the colluding writer; in half of the runs the receiver finally restarts and loads what it had persisted; by topic announcement, direct channel or manual Sync; oracle at every quiescent step: an injected entry that is invalid (claimed hash != address of its re-encoding, or a signed field / key / signature changed, or foreign log id) is in no honest replica's entry set, total order or head set under either hash, and the order of previously held entries is unchanged; non-trivial = >=3 attempts covering >=2 delivery modes reached a replica holding >=2 valid entries"})
 }
 
 var c04Fields = []string{"payload", "clock.time", "clock.id", "next", "refs", "v", "key", "sig", "identity.id", "identity.publicKey", "identity.signatures", "identity.type", "id", "hash", "foreign-db"}
@@ -122,8 +122,8 @@ func scenC04(k *K) {
 		}
 		src := CopyHeads(vals[k.C.Intn(len(vals)):][:1])[0].(*entry.Entry)
 		field := c04Fields[k.C.Intn(len(c04Fields))]
-		mode := []string{"orig-hash", "rehash", "ancestor"}[k.C.Intn(3)]
-		if mode == "ancestor" && !collude {
+		mode := []string{"orig-hash", "rehash", "ancestor", "ref"}[k.C.Intn(4)]
+		if (mode == "ancestor" || mode == "ref") && !collude {
 			mode = []string{"orig-hash", "rehash"}[k.C.Intn(2)]
 		}
 		m := src
@@ -230,7 +230,7 @@ func scenC04(k *K) {
 				tolerated[trueCID.String()] = true // a different entry that is valid by C04's criteria
 			}
 			heads = []*entry.Entry{m}
-		case "ancestor":
+		case "ancestor", "ref":
 			m.Hash = trueCID
 			if signedOrKey[field] {
 				invalid[trueCID.String()] = desc
@@ -243,7 +243,13 @@ func scenC04(k *K) {
 			if typ == "eventlog" {
 				p, _ = operation.NewOperation(nil, "ADD", []byte(fmt.Sprintf("child-%d", a))).Marshal()
 			}
-			child, err := adv.Craft("own", adv.Own, nil, c.Addr, p, []cid.Cid{trueCID}, maxT)
+			// the colluding writer's valid entry names it as predecessor (next) or only as a
+			// skip-list reference (refs), which loads follow but head computation does not
+			nx, rf := []cid.Cid{trueCID}, []cid.Cid{}
+			if mode == "ref" {
+				nx, rf = []cid.Cid{}, []cid.Cid{trueCID}
+			}
+			child, err := adv.CraftRefs("own", adv.Own, nil, c.Addr, p, nx, rf, maxT)
 			if err != nil {
 				continue
 			}
@@ -264,6 +270,19 @@ func scenC04(k *K) {
 	}
 	k.Settle(90*time.Second, 3000, nil)
 	check("rest")
+	// one more route: the receiver restarts and loads what it had persisted
+	if k.C.Chance(1, 2) {
+		k.W.Stat("route:restart-load")
+		k.Invariant = nil
+		c.Down(1, k.C.Chance(1, 2))
+		if err := c.Up(1); err == nil {
+			R = c.Stores[1]
+			prevOrder[1] = nil
+			k.Settle(60*time.Second, 2000, nil)
+			check("after-restart")
+			k.Invariant = func() { check("step") }
+		}
+	}
 	// one more route: what the replicator left unfinished is saved with a snapshot and handed
 	// back to it when the snapshot is loaded by a fresh store object
 	if k.C.Chance(1, 2) {
